@@ -150,3 +150,153 @@ Proof.
   split; [split; [by eexists|reflexivity]|]. split; [|reflexivity].
   intros [_ H]. vm_compute in H. discriminate.
 Qed.
+
+(* ======================================================================== *)
+(* AFTER into_ssa (proof round 4).  The theorems above are about the graph   *)
+(* lifting builds; the ones below are about the graph the SSA conversion     *)
+(* makes of it: Model.Ssa.into_ssa (the mirror compared with the real        *)
+(* into_ssa by C14's check), for ALL dominance-frontier and children tables. *)
+(* The clauses are those of Spec.IrCfgSpec (graphs WITH statements, Model.Ir) *)
+(* ======================================================================== *)
+Require Model.Ssa Model.SsaPre Spec.IrCfgSpec Spec.IrSkel.
+Require Proofs.SsaFrame Proofs.SsaWellFormed Proofs.SsaLiftedWf Proofs.SsaWellFormedExample.
+
+(* (1) no hypothesis: the conversion keeps the number of blocks, and block i keeps
+   its index, its loop depth, its predecessor list and its successor list *)
+Theorem C12_ssa_keeps_blocks_edges_depths : forall frontier children c c',
+  Ssa.into_ssa frontier children c = Ssa.SOk c' ->
+  length (Ir.c_blocks c') = length (Ir.c_blocks c) /\
+  forall i b b', nth_error (Ir.c_blocks c) i = Some b -> nth_error (Ir.c_blocks c') i = Some b' ->
+    Ir.b_index b' = Ir.b_index b /\ Ir.b_depth b' = Ir.b_depth b /\
+    Ir.b_preds b' = Ir.b_preds b /\ Ir.b_succs b' = Ir.b_succs b.
+Proof. exact Proofs.SsaFrame.into_ssa_blocks_kept. Qed.
+Print Assumptions C12_ssa_keeps_blocks_edges_depths.
+
+(* hence, still without hypothesis: the same paths along successor edges, the same
+   reachable blocks, the same (path-based) dominance relation - the dominance order
+   of the graph is untouched *)
+Theorem C12_ssa_same_paths_and_dominance : forall frontier children c c',
+  Ssa.into_ssa frontier children c = Ssa.SOk c' ->
+  (forall i l j, IrCfgSpec.path c' i l j <-> IrCfgSpec.path c i l j) /\
+  (forall j, IrCfgSpec.reachable c' j <-> IrCfgSpec.reachable c j) /\
+  (forall i j, IrCfgSpec.dominates c' i j <-> IrCfgSpec.dominates c i j).
+Proof. exact Proofs.SsaWellFormed.into_ssa_same_paths. Qed.
+Print Assumptions C12_ssa_same_paths_and_dominance.
+
+(* (2) on a graph without phi expressions (SsaPre.phi_free: decidable, evaluated per
+   definition by the `ssapre` command of the ir driver; lifting never builds one,
+   C12_lifted_graph_wf): every block of the output is  phis ++ body  where every
+   statement of phis is a top-level phi assignment, no statement of body is one, and
+   body is the statement list of the input block one for one and of the same kind
+   (same constructor and location; a branch keeps both targets) *)
+Theorem C12_ssa_blocks_are_phis_then_image : forall frontier children c c',
+  SsaPre.phi_free c = true -> Ssa.into_ssa frontier children c = Ssa.SOk c' ->
+  Forall2 (fun b b' =>
+             IrCfgSpec.same_frame b b' /\
+             exists phis body,
+               Ir.b_stmts b' = phis ++ body /\
+               Forall IrCfgSpec.is_phi phis /\
+               Forall (fun s => ~ IrCfgSpec.is_phi s) body /\
+               Forall2 IrCfgSpec.same_kind (Ir.b_stmts b) body)
+          (Ir.c_blocks c) (Ir.c_blocks c').
+Proof. exact Proofs.SsaWellFormed.into_ssa_shape. Qed.
+Print Assumptions C12_ssa_blocks_are_phis_then_image.
+
+(* the hypothesis cannot simply be dropped: the mirror copies a phi assignment that
+   already stands behind another statement of the input *)
+Theorem C12_ssa_shape_needs_phi_free :
+  SsaPre.phi_free Proofs.SsaWellFormed.Needed.c_phi = false /\
+  exists c', Ssa.into_ssa [[]] [[]] Proofs.SsaWellFormed.Needed.c_phi = Ssa.SOk c' /\
+             ~ IrCfgSpec.ssa_shape_of Proofs.SsaWellFormed.Needed.c_phi c'.
+Proof. exact Proofs.SsaWellFormed.Needed.phi_free_needed. Qed.
+Print Assumptions C12_ssa_shape_needs_phi_free.
+
+(* in particular a block of the output ends in a branch exactly when the block of the
+   input does, with the same location and the same targets *)
+Theorem C12_ssa_branch_last_iff : forall frontier children c c',
+  SsaPre.phi_free c = true -> Ssa.into_ssa frontier children c = Ssa.SOk c' ->
+  forall i b b', nth_error (Ir.c_blocks c) i = Some b -> nth_error (Ir.c_blocks c') i = Some b' ->
+  forall m t f,
+    (exists e, IrCfgSpec.last_stmt b' = Some (Ir.SIf m e t f)) <->
+    (exists e, IrCfgSpec.last_stmt b = Some (Ir.SIf m e t f)).
+Proof. exact Proofs.SsaWellFormed.into_ssa_last_branch. Qed.
+Print Assumptions C12_ssa_branch_last_iff.
+
+(* (3) every clause of C12 on graphs with statements (IrCfgSpec.cfg_wf: index = position,
+   entry without predecessor, edges in range, predecessors mirror successors, a branch only
+   last, its targets existing successors with true target = next block, at most two
+   successors and one without a branch, every block reachable, dominance implies <=,
+   descending paths) is carried from c to any c' of that shape - a statement about two
+   graphs, no mirror involved ... *)
+Theorem C12_phis_in_front_keep_wf : forall c c',
+  IrCfgSpec.ssa_shape_of c c' -> IrCfgSpec.cfg_wf c -> IrCfgSpec.cfg_wf c'.
+Proof. exact Proofs.SsaWellFormed.ssa_shape_keeps_wf. Qed.
+Print Assumptions C12_phis_in_front_keep_wf.
+
+(* ... hence by the SSA conversion *)
+Theorem C12_ssa_keeps_wf : forall frontier children c c',
+  SsaPre.phi_free c = true -> Ssa.into_ssa frontier children c = Ssa.SOk c' ->
+  IrCfgSpec.cfg_wf c -> IrCfgSpec.cfg_wf c'.
+Proof. exact Proofs.SsaWellFormed.into_ssa_keeps_wf. Qed.
+Print Assumptions C12_ssa_keeps_wf.
+
+(* the bridge from the theorems about Model.Lift.lift: the graph WITH statements that the
+   content-carrying lifting mirror returns (Model.LiftFull.lift_to_ir, tied to the real
+   try_lift_impl by C13's liftfull stage) holds no phi expression and satisfies every clause
+   (through C13_liftfull_skeleton: its skeleton is the graph Model.Lift.lift builds) *)
+Theorem C12_lifted_graph_wf : forall kind params pfile ploc body c,
+  Model.LiftFull.lift_to_ir kind params pfile ploc body = Ok c ->
+  SsaPre.phi_free c = true /\ IrCfgSpec.cfg_wf c.
+Proof. exact Proofs.SsaLiftedWf.lifted_graph_wf. Qed.
+Print Assumptions C12_lifted_graph_wf.
+
+(* after into_cfg AND after into_ssa, no hypothesis left: whatever the tables, the SSA form
+   of a lifted definition has the shape of (2) and satisfies every clause *)
+Theorem C12_lifted_ssa_graph_wf : forall kind params pfile ploc body c frontier children c',
+  Model.LiftFull.lift_to_ir kind params pfile ploc body = Ok c ->
+  Ssa.into_ssa frontier children c = Ssa.SOk c' ->
+  IrCfgSpec.ssa_shape_of c c' /\ IrCfgSpec.cfg_wf c'.
+Proof. exact Proofs.SsaLiftedWf.lifted_ssa_cfg_wf. Qed.
+Print Assumptions C12_lifted_ssa_graph_wf.
+
+(* the skeleton of the SSA graph behind its leading phi assignments (Spec.IrSkel.ir_skel)
+   IS the graph Model.Lift.lift builds from the skeleton of the body, for any naming [key]
+   of statements by their location: every theorem of this file and of props/C13.v stated
+   under `lift body = Ok g` speaks about the graph after into_ssa ... *)
+Theorem C12_lifted_ssa_skeleton : forall key kind params pfile ploc body r frontier children c',
+  Model.LiftFull.try_lift_impl kind params pfile ploc body = Ok r ->
+  Ssa.into_ssa frontier children (Model.LiftFull.erase_cfg (Model.LiftFull.l_cfg r)) = Ssa.SOk c' ->
+  lift (Model.LiftFull.skel key body) = Ok (IrSkel.ir_skel key c').
+Proof. exact Proofs.SsaLiftedWf.lifted_ssa_skeleton. Qed.
+Print Assumptions C12_lifted_ssa_skeleton.
+
+(* ... for instance C12_loop_depth_is_nesting: the statements of the SSA graph behind the
+   phis, in block order with the recorded loop depth of their block, are the statements
+   and conditions of the source in source order with their syntactic loop nesting *)
+Theorem C12_ssa_loop_depth_is_nesting : forall key kind params pfile ploc body r frontier children c',
+  Model.LiftFull.try_lift_impl kind params pfile ploc body = Ok r ->
+  Ssa.into_ssa frontier children (Model.LiftFull.erase_cfg (Model.LiftFull.l_cfg r)) = Ssa.SOk c' ->
+  graph_items (IrSkel.ir_skel key c') = nesting 0 (Model.LiftFull.skel key body).
+Proof. exact Proofs.SsaLiftedWf.lifted_ssa_loop_depths. Qed.
+Print Assumptions C12_ssa_loop_depth_is_nesting.
+
+(* non-vacuity:  var x = 0; while (x < 3) { x = x + 1; }  x = x + 4;  lifts to four blocks,
+   the conversion (tables of its dominator tree) puts a phi assignment in front of the
+   branch of the loop header - phis first, branch last -, and the theorems apply *)
+Example C12_after_ssa_witness :
+  let c := Proofs.SsaWellFormedExample.ex_c0 in
+  let c' := Proofs.SsaWellFormedExample.ex_c1 in
+  Model.LiftFull.lift_to_ir Ir.KTemplate [] (Some 0%N) (10%N, 12%N) Proofs.SsaWellFormedExample.ex_body = Ok c /\
+  Ssa.into_ssa Proofs.SsaWellFormedExample.ex_frontier Proofs.SsaWellFormedExample.ex_children c = Ssa.SOk c' /\
+  map (fun b => map IrSkel.is_phi_b (Ir.b_stmts b)) (Ir.c_blocks c') =
+    [[false; false]; [true; false]; [false]; [false]] /\
+  SsaPre.phi_free c = true /\ IrCfgSpec.ssa_shape_of c c' /\ IrCfgSpec.cfg_wf c' /\
+  lift (Model.LiftFull.skel Proofs.SsaWellFormedExample.ex_key Proofs.SsaWellFormedExample.ex_body) =
+    Ok (IrSkel.ir_skel Proofs.SsaWellFormedExample.ex_key c').
+Proof.
+  destruct Proofs.SsaWellFormedExample.ex_runs as (H1 & H2 & _ & _). cbv zeta.
+  split; [exact H1|]. split; [exact H2|]. split; [vm_compute; reflexivity|].
+  destruct (C12_lifted_graph_wf _ _ _ _ _ _ H1) as [Hp _]. split; [exact Hp|].
+  destruct (C12_lifted_ssa_graph_wf _ _ _ _ _ _ _ _ _ H1 H2) as [Hs Hw]. split; [exact Hs|]. split; [exact Hw|].
+  vm_compute. reflexivity.
+Qed.
